@@ -135,6 +135,7 @@ KNOWN_CONSTRUCTS = {
     "C01|construct:global-fptr-no-init": ("probe2.c", "\n".join(__import__("nv.header42", fromlist=["x"]).render(dict(__import__("nv.header42", fromlist=["x"]).DEFAULT, file="probe2.c")))
                                                 + "\n\nstatic int\t(*g_hook)(int);\n\nint\tft_probe(void)\n{\n\treturn (0);\n}\n"),
     "C01|construct:cast-paren-mult": _fixed(["\tint\ti;"], ["\ti = (int)(a) * j;"]),
+    "C01|construct:ptrcast-group-mult": _fixed(["\tint\ti;"], ["\ti = ((t_x **)p != NULL) * (j == 0);"]),
 }
 
 
